@@ -261,6 +261,8 @@ type input struct {
 	Files         []fileIn            `json:"files"`
 	Honest        map[string][]string `json:"honest_ids"`                 // generator ground truth: step -> ids that must be counted
 	SystemTrust   string              `json:"system_trust_pem,omitempty"` // the case ran in a process whose SSL_CERT_FILE held this CA
+	E2E           bool                `json:"e2e,omitempty"`              // observable includes the two full verification entry points
+	DSSELayout    bool                `json:"dsse_layout,omitempty"`
 }
 
 type item struct {
@@ -286,6 +288,7 @@ type scenario struct {
 	alias    map[int]int  // layout.Keys[id of pool[a]] = pool[b] (inconsistent layout: validateLayoutKeys would refuse it)
 	shortIDs map[int]bool // the step lists, and the layout defines the key under, only the first 8 characters of the id
 	noOracle bool
+	e2e      bool              // also run the full InTotoVerify / InTotoVerifyWithDirectory (no later stage can fail by construction)
 	items    map[string][]item // step name -> items
 }
 
@@ -1021,6 +1024,23 @@ func sysTrustScenarios(w *world, r *lib.Rng) []*scenario {
 			}
 		}
 	}
+	// honest controls (accepted): certificate functionaries of the layout's own PKI, and a key functionary of a layout without CAs
+	for v, who := range []string{"bob", "carol", "alice"} {
+		sc := &scenario{klass: "system-trust-honest-control", defined: map[int]bool{}, items: map[string][]item{}, roots: "root", interIn: []string{"layout", "none", "extra"}[v]}
+		st := stepShape{name: "build", threshold: 1, ccs: []intoto.CertificateConstraint{ccAll()}}
+		sc.steps = []stepShape{st}
+		sc.addItem(st, w.certItem(st, sc, w.leaves[who], "cert-"+who))
+		sc.addItem(st, w.certItem(st, sc, w.leaves["eve"], "cert-from-system-trusted-ca"))
+		out = append(out, sc)
+	}
+	{
+		sc := &scenario{klass: "system-trust-honest-control", defined: map[int]bool{4: true}, items: map[string][]item{}, roots: "none", interIn: "none"}
+		st := stepShape{name: "build", threshold: 1, pubkeys: []int{4}, ccs: []intoto.CertificateConstraint{ccAll()}}
+		sc.steps = []stepShape{st}
+		sc.addItem(st, w.keyItem(st, sc, 4, "key-authorised"))
+		sc.addItem(st, w.certItem(st, sc, w.leaves["eve"], "cert-from-system-trusted-ca"))
+		out = append(out, sc)
+	}
 	return out
 }
 
@@ -1121,6 +1141,7 @@ func (w *world) buildInput(sc *scenario) input {
 	}
 	in.Layout = l
 	in.SystemTrust = w.sysPEM
+	in.E2E = sc.e2e
 	for _, st := range sc.steps {
 		for _, it := range sc.items[st.name] {
 			f := fileIn{Name: it.name, Label: it.label, Content: base64.StdEncoding.EncodeToString(it.content)}
@@ -1131,6 +1152,7 @@ func (w *world) buildInput(sc *scenario) input {
 		}
 	}
 	sort.Slice(in.Files, func(i, j int) bool { return in.Files[i].Name < in.Files[j].Name })
+	in.DSSELayout = sc.e2e && (len(in.Files)+len(sc.steps[0].ccs))%2 == 0
 	return in
 }
 
@@ -1231,7 +1253,65 @@ func runImpl(in input, dir string) string {
 		l.Steps = []intoto.Step{l.Steps[i]}
 		out += ";S=" + runRepeated(l, dir, inter)
 	}
+	if in.E2E {
+		out += ";V=" + runE2E(in, dir, inter, false) + ";VD=" + runE2E(in, dir, inter, true)
+	}
 	return out
+}
+
+// the full verification: the layout signed by an owner key, the link directory as it is; accept/reject only.
+// No artifact rules, inspections or sublayouts exist in these scenarios and all links are equal, so the
+// threshold stage decides.
+func runE2E(in input, dir string, inter [][]byte, withDir bool) string {
+	owner := lib.GetKeyPair("ed-c02-layout-owner")
+	one := func() string {
+		return lib.Recover(func() string {
+			var env intoto.Metadata
+			if in.DSSELayout {
+				e := &intoto.Envelope{}
+				if err := e.SetPayload(copyLayout(in.Layout)); err != nil {
+					return "SETUP-ERROR"
+				}
+				env = e
+			} else {
+				env = &intoto.Metablock{Signed: copyLayout(in.Layout), Signatures: []intoto.Signature{}}
+			}
+			if err := env.Sign(owner.Priv); err != nil {
+				return "SETUP-ERROR"
+			}
+			keys := map[string]intoto.Key{owner.Pub.KeyID: owner.Pub}
+			var err error
+			if withDir {
+				runDir, e2 := os.MkdirTemp("", "c02-rundir-")
+				if e2 != nil {
+					return "SETUP-ERROR"
+				}
+				defer os.RemoveAll(runDir)
+				os.WriteFile(filepath.Join(runDir, "placeholder"), []byte("x"), 0o644) // the entry point refuses an empty run directory
+				_, err = intoto.InTotoVerifyWithDirectory(env, keys, dir, runDir, "", map[string]string{}, inter, true)
+			} else {
+				_, err = intoto.InTotoVerify(env, keys, dir, "", map[string]string{}, inter, true)
+			}
+			if err != nil {
+				return "REJECT"
+			}
+			return "ACCEPT"
+		})
+	}
+	seen := map[string]int{}
+	for i := 0; i < 6; i++ {
+		seen[one()]++
+	}
+	if len(seen) == 1 {
+		for k := range seen {
+			return k
+		}
+	}
+	var parts []string
+	for _, k := range lib.SortedKeys(seen) {
+		parts = append(parts, fmt.Sprintf("%s x%d", k, seen[k]))
+	}
+	return "NONDETERMINISTIC{" + strings.Join(parts, " | ") + "}"
 }
 
 // loader observable: verdict of LoadLinksForLayout, and the key ids it loads per step
@@ -1291,6 +1371,13 @@ func oracle(in input) string {
 	for _, st := range in.Layout.Steps {
 		out += ";S=" + one([]intoto.Step{st})
 	}
+	if in.E2E {
+		v := "REJECT"
+		if strings.HasPrefix(one(in.Layout.Steps), "OK") {
+			v = "ACCEPT"
+		}
+		out += ";V=" + v + ";VD=" + v
+	}
 	return out
 }
 
@@ -1306,6 +1393,12 @@ func kindOfDifference(impl, orc string) string {
 	for i := range a {
 		if i >= len(b) || a[i] == b[i] {
 			continue
+		}
+		if strings.HasPrefix(a[i], "V=") || strings.HasPrefix(a[i], "VD=") {
+			if strings.HasSuffix(a[i], "=ACCEPT") {
+				return "full-verification-accepts-without-enough-honest-functionaries"
+			}
+			return "full-verification-rejects-enough-honest-functionaries"
 		}
 		ia, ib := strings.Contains(a[i], "=OK"), strings.Contains(b[i], "=OK")
 		switch {
@@ -1524,7 +1617,11 @@ func coqModel(w *world, in input, dir string) (string, string) {
 	}
 	layoutT := "(layout_of " + lib.CoqList(stepTerms, "step") + " " + lib.CoqList(keyTerms, "str * key") + ")"
 	filesT := lib.CoqList(fileTerms, "str * option env")
-	return "(c02_obs_full " + lib.CoqList(vrows, "str * str * str") + " " + lib.CoqList(certRows, "str * key") + " " +
+	fn := "c02_obs_full"
+	if in.E2E {
+		fn = "c02_obs_e2e"
+	}
+	return "(" + fn + " " + lib.CoqList(vrows, "str * str * str") + " " + lib.CoqList(certRows, "str * key") + " " +
 			lib.CoqList(ccrows, "str * str * str") + " " + layoutT + " " + filesT + ")",
 		"(c02_loaded " + layoutT + " " + filesT + ")"
 }
@@ -1636,6 +1733,9 @@ func main() {
 		if child {
 			r = lib.NewRng(lib.Seed() + 1000003)
 			scs = sysTrustScenarios(w, r.Fork())
+			for _, sc := range scs {
+				sc.e2e = true
+			}
 			for i := 0; i < n; i++ {
 				sc := randomScenario(w, r.Fork(), mk)
 				sc.klass = "systrust-" + sc.klass
@@ -1643,6 +1743,9 @@ func main() {
 			}
 		} else {
 			scs = witnessScenarios(w, r.Fork())
+			for _, sc := range scs {
+				sc.e2e = true
+			}
 			if exhaustive {
 				scs = append(scs, exhaustiveScenarios(w, r.Fork(), mk)...)
 			}
